@@ -224,8 +224,17 @@ pub fn c17(ctx: &mut Ctx) {
     let calls_per_thread = if small { 12 } else { ctx.budget(300, 1500) as usize };
     let mut signatures: BTreeMap<u64, u64> = BTreeMap::new();
     let mut total_switches = 0u64;
+    // after the mixed rounds: *hammer* rounds, in which every thread calls only a handful of the hot
+    // pairs (2, 4, 8, 24 of them) many times - a window of a few nanoseconds between two halves of a
+    // shared entry needs the same few operands converted by several threads at the same instant
+    let hammer: Vec<usize> = if small { vec![] } else { vec![2, 4, 8, 24, 2, 4] };
+    let normal_rounds = rounds;
+    let rounds = normal_rounds + hammer.len() as u64;
+    let base_calls = calls_per_thread;
     for round in 0..rounds {
-        let threads = if small { 3 } else { [2usize, 4, 16][(round % 3) as usize] };
+        let hot_only: Option<usize> = if round >= normal_rounds { Some(hammer[(round - normal_rounds) as usize].min(shared.len())) } else { None };
+        let calls_per_thread = if hot_only.is_some() { ctx.budget(4_000, 40_000) as usize } else { base_calls };
+        let threads = if small { 3 } else if hot_only.is_some() { [16usize, 8][(round % 2) as usize] } else { [2usize, 4, 16][(round % 3) as usize] };
         if observe::capture_active() {
             let _ = observe::capture_take();
         }
@@ -241,6 +250,10 @@ pub fn c17(ctx: &mut Ctx) {
         for t in 0..threads {
             let (shared, iso_keys, barrier, seq, order, mismatches, called) = (shared.clone(), iso_keys.clone(), barrier.clone(), seq.clone(), order.clone(), mismatches.clone(), called.clone());
             let mut rng = Rng::from_parts(ctx.seed ^ round.wrapping_mul(7919), "C17-thread", (ctx.shard << 8) | t as u64);
+            let hot_base = match hot_only {
+                Some(k) if k < 24 => 2 * ((round as usize * 5) % ((24 - k) / 2 + 1)),
+                _ => 0,
+            };
             hs.push(std::thread::spawn(move || {
                 observe::install_panic_hook();
                 let mut mine: Vec<(u64, u8)> = Vec::new();
@@ -249,6 +262,7 @@ pub fn c17(ctx: &mut Ctx) {
                 for _ in 0..calls_per_thread {
                     // few "hot" pairs so that threads collide on the same shared values
                     let i = match rng.below(10) {
+                        _ if hot_only.is_some() => hot_base + rng.below(hot_only.unwrap()),
                         0..=3 => rng.below(24.min(shared.len())),
                         4..=6 if tail_start < shared.len() => tail_start + rng.below(shared.len() - tail_start),
                         _ => rng.below(shared.len()),
